@@ -150,6 +150,10 @@ def constructs():
                 out.append(("regex", Q(A, C(F(e)))))
     out.append(("regex", Q(A, C(F(("cmp", "=~", qa(C(N("a"))), ("re", "a.*", "")))))))
     out.append(("regex", Q(A, C(F(("not", ("cmp", "=~", qa(), ("re", "a", "i"))))))))
+    # more than one literal in a query, and a slash in a later string
+    out.append(("regex", Q(A, C(F(("or", ("cmp", "=~", qa(), ("re", "a+", "")), ("cmp", "=~", qa(C(N("a"))), ("re", "a.", ""))))))))
+    out.append(("regex", Q(A, C(F(("and", ("cmp", "=~", qa(), ("re", "a.*", "i")), ("cmp", "!=", qa(), L("a/b"))))))))
+    out.append(("regex", Q(A, C(F(("cmp", "=~", qa(), ("re", "A", "i")))), C(F(("cmp", "=~", qa(), ("re", "a", "")))))))
     # undefined / missing
     for u in (UNDEF, MISSING):
         for e in (("cmp", "==", qa(C(N("a"))), u), ("cmp", "!=", qa(C(N("a"))), u), ("cmp", "==", u, qa(C(N("a")))),
@@ -281,7 +285,9 @@ def prim_constructs():
             fr(C(F(("cmp", "in", L("2"), qr())))), fr(C(F(("cmp", "==", qa(), L(None)))))]
 
 
-FR_SIMPLE = ["^[?@.k == 2].k", "$.k", "^[0].s", "$.l[*]", "^[?@.o].l[*]", "$.o.*"]
+FR_SIMPLE = ["^[?@.k == 2].k", "$.k", "^[0].s", "$.l[*]", "^[?@.o].l[*]", "$.o.*",
+             # operands that read the filter context: every operand of a compound query gets the caller's mapping
+             "$.l[?@ == _.lim]", "$.arr[?@ == _.name || @ > _.lim]"]
 
 
 def fake_root_compounds():
@@ -356,13 +362,19 @@ def _fake_compound(parts, acc, record=True):
     except Exception as e:  # noqa: BLE001
         acc.violation("F", "compile-error", {"parts": list(parts), "query": text}, expected="compiles", observed="%s: %s" % (type(e).__name__, e))
         return
+    fc = CONTEXTS[2]
     for di, doc in enumerate(docs()):
-        exp = fold([sp.findall(doc) for sp in simple], list(parts[1::2]))
+        exp = fold([sp.findall(doc, filter_context=fc) for sp in simple], list(parts[1::2]))
         bad = None
         try:
-            got = p.findall(doc)
-            got2 = [m.obj for m in p.finditer(doc)]
-            if not jeq_list(got, exp):
+            got = p.findall(doc, filter_context=fc)
+            got2 = [m.obj for m in p.finditer(doc, filter_context=fc)]
+            m1 = p.match(doc, filter_context=fc)
+            if bool(exp) != (m1 is not None) or (exp and not jeq_list([m1.obj], exp[:1])):
+                bad = ("fake-root-compound.match", None if m1 is None else m1.obj)
+            if bad:
+                pass
+            elif not jeq_list(got, exp):
                 bad = ("fake-root-compound.findall", got)
             elif not jeq_list(got2, exp):
                 bad = ("fake-root-compound.finditer", got2)
